@@ -84,6 +84,44 @@ def _unwrap(obj):
     return None, None
 
 
+def cloned_class_dict(w, real):
+    """{name: clone} for every function / property / cached_property along real.__mro__ that is
+    defined in a world module (first definition in MRO order wins, as in normal lookup)."""
+    d = {}
+    for klass in real.__mro__:
+        for k, v in klass.__dict__.items():
+            if k in d or k in ("__new__", "__init_subclass__", "__dict__", "__weakref__"):
+                continue
+            kind, f = _unwrap(v)
+            if kind is None:
+                # remember non-function attributes so that an earlier-in-MRO plain attribute
+                # is not shadowed by a clone of a later class's function
+                if not (k.startswith("__") and k.endswith("__")):
+                    d.setdefault(k, _KEEP)
+                continue
+            if not isinstance(f, types.FunctionType) or f.__module__ not in w.ns or \
+                    f.__globals__ is not w.mods[f.__module__].__dict__:
+                d.setdefault(k, _KEEP)
+                continue
+            c = w._clone(f)
+            if kind == "fn":
+                d[k] = c
+            elif kind == "cprop":
+                d[k] = _SymAttr(k, c, True)
+            elif kind == "prop":
+                d[k] = _SymAttr(k, c, False)
+            elif kind == "static":
+                d[k] = staticmethod(c)
+            elif kind == "class":
+                d[k] = classmethod(c)
+    return {k: v for k, v in d.items() if v is not _KEEP}
+
+
+def clone_class(w, real):
+    """Subclass of an ordinary (non-expression) class whose methods run the cloned code."""
+    return type("Sym" + real.__name__, (real,), cloned_class_dict(w, real))
+
+
 class NodeSpace:
     def __init__(self, world, expr_base):
         self.world = world
@@ -111,35 +149,7 @@ class NodeSpace:
         real = getattr(real, "_symx_real", real)
         if real in self._sub:
             return self._sub[real]
-        w = self.world
-        d = {}
-        for klass in real.__mro__:
-            for k, v in klass.__dict__.items():
-                if k in d or k in ("__new__", "__init_subclass__", "__dict__", "__weakref__"):
-                    continue
-                kind, f = _unwrap(v)
-                if kind is None:
-                    # remember non-function attributes so that an earlier-in-MRO plain attribute
-                    # is not shadowed by a clone of a later class's function
-                    if not (k.startswith("__") and k.endswith("__")):
-                        d.setdefault(k, _KEEP)
-                    continue
-                if not isinstance(f, types.FunctionType) or f.__module__ not in w.ns or \
-                        f.__globals__ is not w.mods[f.__module__].__dict__:
-                    d.setdefault(k, _KEEP)
-                    continue
-                c = w._clone(f)
-                if kind == "fn":
-                    d[k] = c
-                elif kind == "cprop":
-                    d[k] = _SymAttr(k, c, True)
-                elif kind == "prop":
-                    d[k] = _SymAttr(k, c, False)
-                elif kind == "static":
-                    d[k] = staticmethod(c)
-                elif kind == "class":
-                    d[k] = classmethod(c)
-        d = {k: v for k, v in d.items() if v is not _KEEP}
+        d = cloned_class_dict(self.world, real)
         # names: the class's own _name logic runs (cloned); only the content hash under it is
         # replaced by a structural digest of the operands (sym_tokenize), so structurally equal
         # nodes still share a name and naming conventions ("rechunk-merge-", ...) are the repo's
